@@ -184,7 +184,7 @@ def adc_spec(version, nc):
 
 def native_geometry(rng, n):
     bad = []
-    grids = {"3B2": (1, 4, 480), "NP2.1": (2, 2, 640), "NP2.4": (2.4, 2, 640)}
+    grids = {"3B2": (1, 4, 480), "NP2.1": (2, 2, 1280), "NP2.4": (2.4, 2, 720)}      # rows beyond the physical 640 too: five-digit y in the geometry map
     for t in range(n):
         for vkey, (ver, ncol, nrow) in grids.items():
             nsites = int(rng.choice([384, 300, 96, 1, 2, 5]))           # incl. a handful of saved sites (they need not reach both outer columns)
